@@ -18,13 +18,13 @@ type client struct {
 	r *Run
 	w *World
 
-	getReply, set, waitACKs, closeFn, getStatus, getStatusAsync, getRules *ssa.Function
-	deleteRule, deleteRules, addRule, recvAudit, parseErr, parseMsg, serialize             *ssa.Function
-	nlSend, nlRecv, nlClose, newNetlink, toWire, fromWire, setPID                          *ssa.Function
-	fPending, fClearPID, fCloseOnce, fNetlink, fSeq, fPid, fReadBuf                        *types.Var
-	nsr                                                                                    *types.Named
-	ok                                                                                     bool
-	sysc                                                                                   map[string]string // syscall constants by name
+	getReply, set, waitACKs, closeFn, getStatus, getStatusAsync, getRules      *ssa.Function
+	deleteRule, deleteRules, addRule, recvAudit, parseErr, parseMsg, serialize *ssa.Function
+	nlSend, nlRecv, nlClose, newNetlink, toWire, fromWire, setPID              *ssa.Function
+	fPending, fClearPID, fCloseOnce, fNetlink, fSeq, fPid, fReadBuf            *types.Var
+	nsr                                                                        *types.Named
+	ok                                                                         bool
+	sysc                                                                       map[string]string // syscall constants by name
 }
 
 func loadClient(r *Run, w *World) *client {
@@ -183,8 +183,8 @@ func (x *client) ackVerified(ruleID string, only *ssa.Function) {
 			if p.End == "cut" {
 				continue
 			}
-			ret := p.Return()
-			ev, hasErr := errResult(ret)
+			ret := p.Ret()
+			ev, hasErr := errResultP(ret)
 			if ev != nil {
 				ev = p.Resolve(ev)
 			}
@@ -405,8 +405,8 @@ func (x *client) getReplyRules() {
 			r.Check(failed && (p.HasLit(eintr) || p.HasLit(eagain)), key, fn.Pos(), "retries on EINTR/EAGAIN only", "the receive is retried on something other than EINTR/EAGAIN: "+compactPath(p))
 		case "return":
 			if failed && !p.HasLit(eintr) && !p.HasLit(eagain) {
-				ev, _ := errResult(p.Return())
-				okw := ev != nil && !isNilConst(ev) && strings.Contains(Term(ev), "fmt.Errorf") && isNilConst(p.Return().Results[0])
+				ev, _ := errResultP(p.Ret())
+				okw := ev != nil && !isNilConst(ev) && strings.Contains(Term(ev), "fmt.Errorf") && isNilConst(p.Ret().Results[0])
 				r.Check(okw, key+" other error", fn.Pos(), "returned wrapped", "a non-transient receive error is not returned (wrapped): "+compactPath(p))
 			}
 		}
@@ -567,7 +567,7 @@ func (x *client) dataReplies() {
 		errnoT := "-*int32(unsafe.Pointer(&p0[0]))"
 		ps, _ := Paths(fn, PathOpts{})
 		for i, p := range ps {
-			ret := p.Return()
+			ret := p.Ret()
 			key := fmt.Sprintf("ParseNetlinkError path#%d [%s]", i, strings.Join(p.Lits(), " ∧ "))
 			switch {
 			case p.HasLit("len(p0) >= 4") && p.HasLit(errnoT+" == 0"):
@@ -779,7 +779,7 @@ func propC17(r *Run, w *World) {
 				}
 				if p.HasLit("p2 == 2") {
 					ok := len(st) == 1 && len(reads) == 0 && st[0] != nil && Term(st[0]) == "send#0"
-					ev, _ := errResult(p.Return())
+					ev, _ := errResultP(p.Ret())
 					r.Check(ok && isNilConst(ev), key, x.set.Pos(), "NoWait: sequence recorded once, nothing read", "the NoWait edge does not record exactly this request's sequence, or reads: "+compactPath(p))
 				} else if p.HasLit("p2 != 2") {
 					ok := len(st) == 0 && len(reads) == 1 && Term(reads[0].Instr.(ssa.CallInstruction).Common().Args[1]) == "send#0"
@@ -1180,9 +1180,9 @@ func propC18(r *Run, w *World) {
 		fn := x.parseMsg
 		ps, _ := Paths(fn, PathOpts{})
 		for i, p := range ps {
-			ret := p.Return()
+			ret := p.Ret()
 			key := fmt.Sprintf("parseNetlinkAuditMessage path#%d [%s]", i, strings.Join(p.Lits(), " ∧ "))
-			ev, _ := errResult(ret)
+			ev, _ := errResultP(ret)
 			if ev != nil {
 				ev = p.Resolve(ev)
 			}
